@@ -125,11 +125,20 @@ type VerifHost struct {
 	host.Host
 	Responses [][]byte
 	Requests  []Request
+	OnStream  func()
 	opened    int
+	attempts  int
 	streams   []*verifStream
 }
 
+// Opened is the number of streams the client tried to open.
+func (h *VerifHost) Opened() int { return h.attempts }
+
 func (h *VerifHost) NewStream(ctx context.Context, p peer.ID, pids ...protocol.ID) (network.Stream, error) {
+	h.attempts++
+	if h.OnStream != nil {
+		h.OnStream()
+	}
 	if h.opened >= len(h.Responses) {
 		return nil, io.ErrClosedPipe
 	}
